@@ -105,6 +105,7 @@ func (n *RawNode) newContext() context.Context {
 func (n *RawNode) close() error {
 	// important to cancel first to stop goroutines
 	n.cancel()
+	vEmit("NodeCancel", n.id, 0)
 	if n.conn == nil {
 		return nil
 	}
